@@ -717,9 +717,9 @@ static void case_c19(const drvargs_t *a,long id){
     ogg_int64_t t2=ov_pcm_tell(&H2.vf);
     int rc=ov_crosslap(&H1.vf,&H2.vf); res_eval(1);
     if(rc==0){
-      /* at half rate positions are only known to +-1 full-rate sample: two per sample returned, re-synchronised to the stream's (full-rate) granule positions whenever
+      /* at half rate positions are only known to one half-rate sample (two full-rate samples): two per sample returned, re-synchronised to the stream's (full-rate) granule positions whenever
          priming decodes a packet that carries one (after the last sample of an odd-length link the position is its end + 1, then the end itself) */
-      if(ov_pcm_tell(&H2.vf)!=t2 && t2>=0 && !(hs2 && llabs(t2-ov_pcm_tell(&H2.vf))<=1)) res_viol("C19","crosslap-moved-second-handle","%lld -> %lld (half-rate: first %d second %d; total %lld): %s",(long long)t2,(long long)ov_pcm_tell(&H2.vf),hs1,hs2,(long long)F.total,desc);
+      if(ov_pcm_tell(&H2.vf)!=t2 && t2>=0 && !(hs2 && llabs(t2-ov_pcm_tell(&H2.vf))<=2)) res_viol("C19","crosslap-moved-second-handle","%lld -> %lld (half-rate: first %d second %d; total %lld): %s",(long long)t2,(long long)ov_pcm_tell(&H2.vf),hs1,hs2,(long long)F.total,desc);
       float **p2,**pt; int b2,bt; long z=ov_read_float(&T2.vf,&pt,0,&bt); (void)z;
       int n2=(int)(vorbis_info_blocksize(ov_info(&H2.vf,-1),0)>>(1+hs2)); int n1=(int)(vorbis_info_blocksize(ov_info(&H1.vf,-1),0)>>(1+hs1)); int n=n1<n2?n1:n2;
       /* H1's link at its position is only known for sure when it has a live decoder there; otherwise bound by the largest short block of the file */
